@@ -1,7 +1,7 @@
 (** The syntactic fragment [wf] of the soundness theorems (C04/C12): everything the semantics has a rule for,
     with the shape constraints the real parser guarantees (set operators are many-to-many, one-to-one matching
-    has no group labels) and without the one construct registered as a known finding of C04:
-    [count_values("__name__", ...)]. *)
+    has no group labels, the parameter of count_values is a string literal).  Since fix 392e95a
+    [count_values("__name__", ...)] is inside the fragment. *)
 From Coq Require Import List String Bool Floats NArith.
 From PintV Require Import Common.Bytes Gen.C04 Model.PromQL Model.PromSem.
 Import ListNotations.
@@ -19,7 +19,7 @@ Definition card_eqb (a b : card) : bool :=
 Definition wf_agg (op : aggop) (param : option expr) : bool :=
   match op with
   | AOther => false
-  | ACountValues => match param with Some (EStr d) => negb (String.eqb d metric_name) | _ => false end
+  | ACountValues => match param with Some (EStr _) => true | _ => false end
   | _ => true
   end.
 
